@@ -1,7 +1,6 @@
 use std::fmt::Display;
 use std::fmt::Formatter;
 use std::io;
-use std::net::IpAddr;
 use std::net::SocketAddr;
 use std::net::ToSocketAddrs;
 use std::vec;
@@ -41,26 +40,51 @@ impl PartialOrd for Address {
 }
 
 impl Ord for Address {
+    /// One total order for every pair of variants (the maps keyed by addresses rely on it): the port, then the bytes
+    /// of the host - a name's bytes or an address's octets -, then a name before an address; two socket addresses
+    /// that agree in all of that are ordered as `SocketAddr` orders them (flow label, scope).
     fn cmp(&self, other: &Self) -> std::cmp::Ordering {
-        fn cmp_ip_addr(this: &[u8], other: IpAddr) -> std::cmp::Ordering {
-            match other {
-                IpAddr::V4(ref ipv4_addr) => this.cmp(&ipv4_addr.octets()),
-                IpAddr::V6(ref ipv6_addr) => this.cmp(&ipv6_addr.octets()),
+        enum Host<'a> {
+            Name(&'a [u8]),
+            V4([u8; 4]),
+            V6([u8; 16]),
+        }
+
+        impl Host<'_> {
+            fn bytes(&self) -> &[u8] {
+                match self {
+                    Host::Name(bytes) => bytes,
+                    Host::V4(octets) => octets,
+                    Host::V6(octets) => octets,
+                }
+            }
+
+            fn rank(&self) -> u8 {
+                match self {
+                    Host::Name(_) => 0,
+                    Host::V4(_) => 1,
+                    Host::V6(_) => 2,
+                }
             }
         }
 
-        match (self, other) {
-            (Address::Domain(this_host, this_port), Address::Domain(other_host, other_port)) => {
-                this_port.cmp(other_port).then_with(|| this_host.cmp(other_host))
+        fn parts(address: &Address) -> (u16, Host<'_>) {
+            match address {
+                Address::Domain(host, port) => (*port, Host::Name(host.as_bytes())),
+                Address::Socket(SocketAddr::V4(addr)) => (addr.port(), Host::V4(addr.ip().octets())),
+                Address::Socket(SocketAddr::V6(addr)) => (addr.port(), Host::V6(addr.ip().octets())),
             }
-            (Address::Domain(this_host, this_port), Address::Socket(other_addr)) => {
-                this_port.cmp(&other_addr.port()).then_with(|| cmp_ip_addr(this_host.as_bytes(), other_addr.ip()))
-            }
-            (Address::Socket(this_addr), Address::Domain(other_host, other_port)) => {
-                this_addr.port().cmp(other_port).then_with(|| cmp_ip_addr(other_host.as_bytes(), this_addr.ip()).reverse())
-            }
-            (Address::Socket(this), Address::Socket(other)) => this.cmp(other),
         }
+
+        let ((this_port, this_host), (other_port, other_host)) = (parts(self), parts(other));
+        this_port
+            .cmp(&other_port)
+            .then_with(|| this_host.bytes().cmp(other_host.bytes()))
+            .then_with(|| this_host.rank().cmp(&other_host.rank()))
+            .then_with(|| match (self, other) {
+                (Address::Socket(this), Address::Socket(other)) => this.cmp(other),
+                _ => std::cmp::Ordering::Equal,
+            })
     }
 }
 
